@@ -1,7 +1,6 @@
 """C10 -- re-rendering round-trips: echo output parses back to the same library.
 Proof: Properties/C10.v (the renderer model for expressions writes a well-formed, fully parenthesised spelling whose erasure is
-the tree; with C01's parser theorem: parse(render e) = e for every expression tree -- Stage B; until then the table and
-write_ws obligations).  Tie: model renderer vs write_to_string on generated expressions.
+the tree; with C01's parser theorem: parse(render e) = e for every expression tree).  Tie: model renderer vs write_to_string on generated expressions.
 Search: parse -> render -> parse on every generated unit (AST-level and syntactic generators) and every repository fixture:
 the re-parsed library must equal the first (Rust ==) and rendering it again must give the same text."""
 import re
@@ -19,7 +18,7 @@ MANIFEST_ENTRY = {
     "technique": "Coq proof that the expression renderer model emits a fully parenthesised spelling that the expression parser model reads "
                  "back to the same tree (every expression tree, any depth); model/renderer correspondence; parse-render-parse search over "
                  "generated units and fixtures with Rust's own library equality and text fixed point",
-    "text": "Proved (Stage B, expressions): for every expression tree the rendered token sequence is a well-formed spelling whose parse is "
+    "text": "Proved (expressions): for every expression tree the rendered token sequence is a well-formed spelling whose parse is "
             "the tree, hence rendering is a fixed point on that scope. For declarations and statements the round trip is decided by "
             "search: every generated unit and every fixture is parsed, rendered, re-parsed and compared with Rust's ==; the second "
             "rendering must equal the first. The renderer has several recorded defects (known findings) whose classes are excluded by "
@@ -140,6 +139,35 @@ def search(run, info):
             continue
         rendered = bytes.fromhex(r["render1"]).decode("utf-8", "replace") if isinstance(r.get("render1"), str) and r.get("render1") != "err" else None
         run.violation("impl-violates-property", "%s (%s)" % (fail, tag), {"input": {"text": t}, "rendered": rendered, "classified_as": key})
+    # ---- correspondence of the Coq renderer model (the subject of C10_parse_render) with write_to_string ----
+    nexpr = 300 if run.tier == "quick" else 5000
+    exprs = [ast_common.model_expr(rng, rng.choice([2, 3, 4, 5])) for _ in range(nexpr)]
+    etexts = []
+    for e in exprs:
+        g = gen_ast.Gen(rng, redundant_parens=False)
+        etexts.append("PROGRAM p\nr := " + gen_prog.render(g.spell(e, 0)).strip("\n") + " ;\nEND_PROGRAM\n")
+    eres = vlib.run_impl([{"id": i, "op": "roundtrip", "text": hexs(t)} for i, t in enumerate(etexts)], wd, per_case_timeout=30)
+    emodel = vlib.run_model([("expr", i, ["render", ast_common.sexp_of_expr(e)]) for i, e in enumerate(exprs)], wd) if info.get("extract_ok") else {}
+    for i, (e, t, r) in enumerate(zip(exprs, etexts, eres)):
+        run.count(("render", t), True, "expression-model")
+        if r.get("parse1") != "ok" or r.get("render1") in (None, "err"):
+            run.violation("impl-violates-property", "expression statement could not be parsed / rendered", {"input": {"text": t}})
+            continue
+        if not (r.get("parse2") == "ok" and r.get("equal") and r.get("fixed_point")):
+            run.violation("impl-violates-property", "expression does not survive render and re-parse: %s" % ast_common.sexp_of_expr(e)[:200],
+                          {"input": {"text": t}, "rendered": bytes.fromhex(r["render1"]).decode("utf-8", "replace")})
+            continue
+        mo = emodel.get(str(i))
+        if mo:
+            out = bytes.fromhex(r["render1"]).decode("utf-8", "replace")
+            line = next((l for l in out.split("\n") if l.strip().startswith("r :=")), "")
+            impl_toks = [x.lower() for x in line.split()[2:-1]]
+            model_toks = [x.split(":", 1)[1].lower() for x in mo[0].split(" ")] if mo[0] else []
+            run.cov["traces_validated_against_impl"] += 1
+            if impl_toks != model_toks:
+                run.cov["disagreements_checked"] += 1
+                run.violation("correspondence", "renderer model and write_to_string differ: model %r, renderer %r" % (" ".join(model_toks)[:150], " ".join(impl_toks)[:150]),
+                              {"input": {"text": t}}, no_input=True)
     return {"coverage": {
         "rule": "parse -> render -> parse -> render on units of the AST-level generator, the exhaustive operator-pair and statement-nesting "
                 "families, every repository fixture and the witnesses of the recorded renderer gaps; sources the parser rejects are skipped; a failed "
